@@ -1227,6 +1227,29 @@ func runDistrCase(ta *TestApp, seed uint64, idx int, rep *Report, profile string
 						rep.Eval(nm, okOnly, idx, bIdx, detail)
 					}
 				}
+				if cls == "" && !anyTrue(fb.seen) {
+					// ---- C04: receipts, not only books: when no bank call failed in the block, every whole unit booked for a module or
+					// base account, or for burning, has been paid out (burned) — what stays recorded is below one unit per denomination
+					okPaid, detail := true, ""
+					okBurn, detailBurn := true, ""
+					for _, st := range k.GetAllStates(rctx) {
+						if !st.Burn && (st.Account == nil || st.Account.Type == distrtypes.InternalAccount || st.Account.Type == distrtypes.Main) {
+							continue
+						}
+						for _, dc := range st.Remains {
+							if dc.Amount.GTE(sdk.OneDec()) {
+								okPaid = false
+								detail = fmt.Sprintf("state %s keeps %s %s although no bank call failed", st.GetStateKey(), dc.Amount, dc.Denom)
+								if st.Burn {
+									okBurn, detailBurn = false, detail
+								}
+							}
+						}
+					}
+					rep.Eval("C04.whole_units_are_paid_out", okPaid, idx, bIdx, detail)
+					// C01: the configured burn leaves the supply in the block that books it (whole units), not some day
+					rep.Eval("C01.whole_units_booked_for_burning_are_burned", okBurn, idx, bIdx, detailBurn)
+				}
 				if updated {
 					// the exact-share oracle follows one configuration; after an update the books, the registered invariants and the
 					// step-by-step comparison with the model (which takes the update too) are what is checked
